@@ -77,7 +77,10 @@ RULE = ('cases: synthesized dynamic images (both classes/byte orders; common, MI
         'implementation is bounded by a 10 s timer; the library reads each image through a stream kind drawn per case (BytesIO, '
         'real buffered files untouched / warmed / at EOF / with a 16-byte buffer, mmap, gzip, decoy descriptor); the tags of the '
         'main walk are read AFTER their stream was closed; one forced image per run (three in the thorough tier) has a SysV or GNU '
-        'hash table with more than 2**20 buckets or bloom words, its table certified by sysv_valid / gnu_valid; a malformed stream (no terminator, unmapped pointers, bad links, bad indices) is '
+        'hash table with more than 2**20 buckets or bloom words, its table certified by sysv_valid / gnu_valid; one forced image has a string of more than 1 MiB behind a string-valued tag '
+        '(section-less, segment view), one uses extended section numbering (>= 0xff00 headers, e_shnum = 0) with .dynamic at the '
+        'segment offset linked to a table that differs from the one DT_STRTAB maps to (expected strings: the Coq spec over the '
+        'linked table; domain by construction); a malformed stream (no terminator, unmapped pointers, bad links, bad indices) is '
         'out of domain; plus the seed libraries.  distinct = hash(kind, abstract); non-trivial = more than 3 tags or a hash '
         'table or a relocation table')
 
@@ -400,6 +403,13 @@ def gen(ctx):
     for _ in range(ctx.scale(1, 3)):
         cases.append(('big', [rng.random() < 0.5, rng.random() < 0.5, rng.choice(['sysv', 'gnu_buckets', 'gnu_bloom']),
                               rng.randint(2, 6), 0x100000 + rng.randint(1, 40), rng.choice(['bytesio', 'file', 'mmap'])]))
+    # a string of more than 1 MiB behind a string-valued tag; extended section numbering with a linked table that
+    # differs from the one DT_STRTAB maps to
+    for _ in range(ctx.scale(1, 2)):
+        cases.append(('long', [rng.random() < 0.5, rng.random() < 0.5, rng.choice(['RUNPATH', 'RPATH', 'NEEDED', 'SONAME']),
+                               0x100000 + rng.randint(1, 0x20000), rng.choice(['bytesio', 'file', 'mmap'])]))
+        cases.append(('manysec', [rng.random() < 0.5, rng.random() < 0.5, rng.choice(['RUNPATH', 'RPATH', 'NEEDED', 'SONAME']),
+                                  0xff00 + rng.randint(0, 0x40), rng.choice(['bytesio', 'file', 'mmap'])]))
     return cases
 
 
@@ -1218,7 +1228,10 @@ def evaluate(ctx, cases):
             if kind == 'big':
                 _evaluate_big(ctx, a, S)
                 S.drop_files()
-        rest = [c for c in cases if c[0] != 'big']
+            elif kind in ('long', 'manysec'):
+                _evaluate_forced(ctx, kind, a, S)
+                S.drop_files()
+        rest = [c for c in cases if c[0] not in ('big', 'long', 'manysec')]
         if rest:
             _evaluate_main(ctx, rest, S)
     finally:
@@ -1336,6 +1349,88 @@ def _evaluate_big(ctx, a, S):
     ctx.bump('stream_kind', skind)
     ctx.record('big', a, impl=impl, spec=spec, model=None, in_domain=valid and fit, nontrivial=True,
                key='sym:big/' + which)
+
+
+def _evaluate_forced(ctx, kind, a, S):
+    """Two more forced magnitudes, built like the `big` image (only small inputs go to the driver):
+    `long`    - a section-less image whose string table holds a string of more than 1 MiB that a string-valued
+                tag designates; the segment view must return all of it (spec: the Coq spec_tags over the entries
+                and the table);
+    `manysec` - an image with extended section numbering (e_shnum = 0, the count >= 0xff00 in section 0's
+                sh_size; all but four headers are SHT_NULL) whose .dynamic section lies AT the segment's offset and
+                links string table A, while DT_STRTAB maps to another table B with other strings at the same
+                indices: section view and segment view resolve through the linked table A (what the code and the
+                model do when a section lies at the segment's offset); the domain is the generator's."""
+    drv = ctx.driver
+    le, is64, tagname, size, skind = a
+    w = 8 if is64 else 4
+    ehsz, phsz, shsz = (64, 56, 64) if is64 else (52, 32, 40)
+    dynsz = 2 * w
+    delta = 0x20000
+    if kind == 'long':
+        longs = bytes(97 + (i * 7 + i // 251) % 26 for i in range(size))
+        tabA = b'\0' + longs + b'\0libz.so.1\0'
+        idx2 = len(longs) + 2
+        nsec = 0
+    else:
+        tabA = b'\0libalpha.so.1\0beta/gamma\0'
+        idx2 = 15
+        nsec = size
+    tabB = _swapcase(tabA)
+    o_dyn = ehsz + 2 * phsz
+    ents = [[DT[tagname], 1], [DT['NEEDED'], idx2], None, [DT['STRSZ'], len(tabA)], [0, 0]]
+    o_a = o_dyn + len(ents) * dynsz
+    o_b = o_a + len(tabA)
+    shstr = b'\0.dynamic\0.dynstr\0.shstrtab\0'
+    o_shstr = o_b + len(tabB)
+    o_sh = (o_shstr + len(shstr) + 7) & ~7
+    total = o_sh + nsec * shsz + 1
+    ents[2] = [DT['STRTAB'], (o_b if kind == 'manysec' else o_a) + delta]
+    reqs = [['enc', 'Ehdr', le, is64, [b'\x7fELF', 2 if is64 else 1, 1 if le else 2, 1, 0, 0, b'\0' * 7, 3, 62 if is64 else 3, 1, 0,
+                                       ehsz, o_sh if nsec else 0, 0, ehsz, phsz, 2, shsz if nsec else 0, 0, 3 if nsec else 0]]]
+    for t, o, fs in ((1, 0, total), (2, o_dyn, len(ents) * dynsz)):
+        vals = [t, 4, o, o + delta, o + delta, fs, fs, 8] if is64 else [t, o, o + delta, o + delta, fs, fs, 4, 8]
+        reqs.append(['enc', 'Phdr', le, is64, vals])
+    for t, v in ents:
+        reqs.append(['enc', 'Dyn', le, is64, [t, v]])
+    rows = []
+    if nsec:
+        rows = [[0, 0, 0, 0, 0, nsec, 0, 0, 0, 0],                                            # the count lives here
+                [1, SHT['DYNAMIC'], 3, o_dyn + delta, o_dyn, len(ents) * dynsz, 2, 0, 8, dynsz],
+                [10, SHT['STRTAB'], 2, o_a + delta, o_a, len(tabA), 0, 0, 1, 0],
+                [18, SHT['STRTAB'], 0, 0, o_shstr, len(shstr), 0, 0, 1, 0]]
+        for r in rows:
+            reqs.append(['enc', 'Shdr', le, is64, r])
+    reqs.append(['spec_tags', le, is64, 62 if is64 else 3, 0, [[_signed(t, w), v] for t, v in ents], tabA])
+    ans = drv.batch(reqs)
+    recs = [x[0] for x in ans[:-1]]
+    fit = all(x[1] for x in ans[:-1])
+    st = ans[-1]
+    img = bytearray(total)
+    img[0:ehsz] = recs[0]
+    img[ehsz:ehsz + 2 * phsz] = recs[1] + recs[2]
+    img[o_dyn:o_dyn + len(ents) * dynsz] = b''.join(recs[3:3 + len(ents)])
+    img[o_a:o_a + len(tabA)] = tabA
+    img[o_b:o_b + len(tabB)] = tabB
+    img[o_shstr:o_shstr + len(shstr)] = shstr
+    for i, r in enumerate(recs[3 + len(ents):]):
+        img[o_sh + i * shsz:o_sh + (i + 1) * shsz] = r
+    img = bytes(img)
+    mk_sec, mk_seg, mk_file = _makers(img, lambda data: S.open(data, skind))
+    def tags(mk):
+        d = mk()
+        ts = list(d.iter_tags())
+        return [_tagrepr(t) for t in ts]
+    expected = ['ok', st[1]] if st != 'none' else ['err', 'no-terminator']
+    impl = [_ok(lambda: tags(mk_seg)), _ok(lambda: mk_seg().num_tags())]
+    spec = [expected, ['ok', len(ents)]]
+    if nsec:
+        impl += [_ok(lambda: tags(mk_sec)), _ok(lambda: mk_file().num_sections())]
+        spec += [expected, ['ok', nsec]]
+    ctx.bump('forced', kind)
+    ctx.bump('stream_kind', skind)
+    ctx.record(kind, a, impl=impl, spec=spec, model=None, in_domain=fit and st != 'none', nontrivial=True,
+               key='dyn:%s/strings' % kind)
 
 
 def _evaluate_main(ctx, cases, S):
